@@ -23,7 +23,7 @@ import (
 func init() {
 	reg.Register(&reg.Spec{ID: "C13",
 		Imports: "From verif Require Import lib.Base model.C13.",
-		Judge:   "C13.judge", Shard: 400, Run: run})
+		Judge:   "C13.judge", Shard: 1200, Run: run})
 }
 
 // ---------------------------------------------------------------- index values
